@@ -432,7 +432,9 @@ func newC19Worker(id int, scheme string, twoNames bool, run *ev.Run, stats *c19S
 
 // samePort: the two host names of the rotation use one port (their address sets must then be
 // disjoint at every moment; only scripted sequences are run on such a worker).
-func newC19WorkerX(id int, scheme string, twoNames, samePort bool, run *ev.Run, stats *c19Stats) (*c19Worker, error) {
+// backendLocalPort (optional): the backend-local-port setting of the listener; only meaningful for
+// tcp rotations (udp backends of one listener cannot share a fixed local port).
+func newC19WorkerX(id int, scheme string, twoNames, samePort bool, run *ev.Run, stats *c19Stats, backendLocalPort ...int) (*c19Worker, error) {
 	w := &c19Worker{id: id, scheme: scheme, port: 7000, run: run, stats: stats, sinks: newVfSinks(), svc: fmt.Sprintf("svc%d.verif.test", id)}
 	if scheme == "tcp" {
 		w.port = 7001
@@ -477,7 +479,11 @@ func newC19WorkerX(id int, scheme string, twoNames, samePort bool, run *ev.Run, 
 	for _, n := range w.names {
 		backends = append(backends, fmt.Sprintf("%s://%s:%d", scheme, n.name, n.port))
 	}
-	fx, err := newVfFixture(w.svc, "127.0.0.1", 5060, backends, 1200, false, false, false, nil, nil)
+	lp := 0
+	if len(backendLocalPort) > 0 {
+		lp = backendLocalPort[0]
+	}
+	fx, err := newVfFixtureLP(w.svc, "127.0.0.1", 5060, backends, 1200, false, false, false, nil, nil, lp)
 	if err != nil {
 		return nil, err
 	}
